@@ -325,7 +325,7 @@ func RunC08(ep *core.Episode) {
 				S.Yield(site)
 			}
 		}
-		ep.OnCleanup(func() { verifhook.OnYield = nil })
+		ep.OnDrained(func() { verifhook.OnYield = nil })
 	}
 
 	nconn := 2 + tp.Choose("nconn", 4)
